@@ -40,7 +40,9 @@ def build_world(w, cases):
              + ("  integer :: tgt !! alpha variable\n" if A else "")
              + "  type :: holder\n" + doc("holder", "    ")
              + ("    integer :: tgt !! holder component\n" if C else "    integer :: other\n")
-             + "  contains\n    procedure :: bnd => impl\n  end type holder\n"
+             + "  contains\n    procedure :: bnd => impl\n    generic :: gnb => bnd\n  end type holder\n"
+             + "  type, extends(holder) :: heir\n    !! inherits the generic binding\n    integer :: extra\n  end type heir\n"
+             + "  abstract interface\n    subroutine absi(k)\n      !! an abstract interface\n      integer :: k\n    end subroutine absi\n  end interface\n"
              + "  interface holder\n    !! constructor interface\n    module procedure new_holder\n  end interface holder\ncontains\n"
              + "  function new_holder() result(h)\n    type(holder) :: h\n  end function new_holder\n"
              + "  subroutine rst()\n    !! alpha's rst\n  end subroutine rst\n"
@@ -91,6 +93,13 @@ def resolve_target(project, tgt):
         return holder
     if t == ("alpha", "holder", "iface"):
         return next(x for x in a.interfaces if x.name == "holder")
+    if t == ("alpha", "absi"):
+        return next(x for x in a.absinterfaces if x.name == "absi")
+    if t == ("alpha", "heir"):
+        return next(x for x in a.types if x.name == "heir")
+    if t == ("alpha", "heir", "gnb"):
+        heir = next(x for x in a.types if x.name == "heir")
+        return next(b for b in heir.boundprocs if b.name == "gnb")
     if t == ("alpha", "rst"):
         return next(x for x in a.subroutines if x.name == "rst")
     if t == ("alpha", "ctxproc"):
@@ -123,6 +132,7 @@ def evaluate(job):
         project = site.CAPTURED["project"]
         outdir = os.path.join(d, outname)
         byid = {c["id"]: c for c in cases}
+        idcache = {}
         seen = {c["id"]: 0 for c in cases}
         for rel in site.html_files(outdir):
             if rel.startswith("sourcefile/"):
@@ -157,6 +167,21 @@ def evaluate(job):
                 wpath, wfrag = (want.split("#") + [""])[:2]
                 if got != wpath or frag != wfrag:
                     out.append({"id": cid, "page": rel, "bad": f"{spell(c['link'])} in {c['ctx']}: on {rel} the link leads to {got}#{frag}, expected {want} ({'/'.join(c['target'])})"})
+                    continue
+                # the link must arrive: the page exists, carries the anchor, and - for an item of a named component - is that component's page
+                tpath = os.path.join(outdir, got)
+                if not os.path.exists(tpath):
+                    out.append({"id": cid, "page": rel, "bad": f"{spell(c['link'])} in {c['ctx']}: the link leads to {got}, which was not written"})
+                    continue
+                if frag:
+                    if got not in idcache:
+                        idcache[got] = set(site.parse_page(outdir, got).ids)
+                    if frag not in idcache[got]:
+                        out.append({"id": cid, "page": rel, "bad": f"{spell(c['link'])} in {c['ctx']}: {got} has no element #{frag}"})
+                if len(c["target"]) == 3 and c["link"]["item"] and c["link"]["n"] in ("holder", "heir") and c["target"][2] != "iface":
+                    owner = resolve_target(project, c["target"][:2])
+                    if got != owner.get_url().split("#")[0]:
+                        out.append({"id": cid, "page": rel, "bad": f"{spell(c['link'])} in {c['ctx']}: the item of {c['link']['n']} is linked on {got}, not on {owner.get_url()}"})
         for cid, n in seen.items():
             if n == 0:
                 out.append({"id": cid, "bad": f"{spell(byid[cid]['link'])} in {byid[cid]['ctx']}: its text is displayed on no generated page"})
